@@ -4,7 +4,7 @@
    input / capture functions (so any iteration order of the Python sets); `extract` instantiates them
    with the value table and node universe of a concrete source. *)
 From Coq Require Import List Bool Arith Lia.
-From IRV Require Import Base.Exn C18.Model C18.Spec C18.Struct C18.Proofs C18.Proofs2 C18.Proofs3.
+From IRV Require Import Base.Exn C18.Model C18.Spec C18.Struct C18.Proofs C18.Proofs2 C18.Proofs3 C18.Proofs4.
 Import ListNotations.
 
 (* The walk never runs out of the fuel the model gives it (so `Raise OtherError` in find_bounded is
@@ -108,6 +108,51 @@ Proof.
     as (_ & _ & _ & H4). exact H4.
 Qed.
 Print Assumptions C18_ok_bounded.
+
+(* C18_semantics.  Full statement: evaluating the extracted graph on the source's values at the boundary
+   inputs gives the source's values at the outputs.
+   Proved (for every tensor type T, every operator semantics `interp`, every initial environment e0 of the
+   source and e1 of the extracted graph): if the source is in SSA form (Hprod, NoDup) and topologically
+   sorted also with respect to captured values (Htopo), and e1 agrees with the source's final environment on
+   the needed values that are boundary inputs or have no producer, then running the extracted node list
+   gives the source's value on every output (indeed on every needed value, Proofs4.sem_extracted).
+   `_partial` because of the last hypothesis: for the producer-less needed values it should follow from
+   "extract returned a graph": they are initializers (bound to the same constants by the extracted graph's
+   own initializer list, C18_inits) or, by C18_ok_bounded, listed inputs — but for values read only inside
+   nested bodies that link goes through the cloner's check (Model.clone_graph), which is modelled and
+   exercised by the correspondence but whose consequence is not proved here. *)
+Theorem C18_semantics_partial :
+  forall (T : Type) (interp : nat -> list (option T) -> list T -> list T) (dflt : T) (nouts : nat -> list nat)
+         prod isinit nins ncaps inputs outputs isf gnodes univ ns inis (e0 e1 : nat -> T),
+    (forall n, ~ In n univ -> weight nins ncaps n = 0) ->
+    find_bounded prod isinit nins ncaps isf gnodes univ inputs outputs = Ok (ns, inis) ->
+    NoDup gnodes ->
+    (forall v n, prod v = Some n <-> In n gnodes /\ In v (nouts n)) ->
+    (forall l1 n l2, gnodes = l1 ++ n :: l2 ->
+       forall u p, reads nins ncaps n u -> prod u = Some p -> In p l1) ->
+    (forall u, Reach prod nins ncaps inputs outputs u -> (In u inputs \/ prod u = None) ->
+       e1 u = exec T interp nins ncaps nouts dflt e0 gnodes u) ->
+    forall o, In o outputs ->
+      exec T interp nins ncaps nouts dflt e1 ns o = exec T interp nins ncaps nouts dflt e0 gnodes o.
+Proof.
+  intros T interp dflt nouts prod isinit nins ncaps inputs outputs isf gnodes univ ns inis e0 e1
+         Hw Hf Hnd Hprod Htopo He1 o Ho.
+  destruct (find_bounded_exact prod isinit nins ncaps inputs outputs isf gnodes univ Hw ns inis Hf)
+    as (H1 & H2 & _).
+  rewrite H1.
+  apply (sem_extracted T interp nins ncaps nouts dflt prod inputs outputs gnodes (fun n => mem n ns) e0 e1
+           Hnd Hprod Htopo); [|exact He1 | apply R_out; exact Ho].
+  intros n Hn. rewrite mem_In. apply H2.
+Qed.
+Print Assumptions C18_semantics_partial.
+
+(* Non-vacuity: a sorted SSA source (x=1; a=f(x); b=g(a,x); c=h(b)), cut at a: nodes 2 and 3 are kept and
+   the hypotheses of C18_semantics_partial hold. *)
+Example C18_semantics_example :
+  let prod v := match v with 2 => Some 1 | 3 => Some 2 | 4 => Some 3 | _ => None end in
+  let nins n := match n with 1 => [Some 1] | 2 => [Some 2; Some 1] | 3 => [Some 3] | _ => [] end in
+  find_bounded prod (fun _ => false) nins (fun _ => []) false [1; 2; 3] [1; 2; 3] [2; 1] [4] = Ok ([2; 3], []).
+Proof. vm_compute. reflexivity. Qed.
 
 (* The same for convenience.extract on a concrete source (value table h, node universe univ). *)
 Theorem C18_extract_exact :
